@@ -577,7 +577,12 @@ def gen_named(rng, case, params, kind):
             rng.shuffle(names)
         return names
     if k == "global":
-        return rng.sample(G, rng.randint(1, min(2, len(G))))
+        names = rng.sample(G, rng.randint(1, min(2, len(G))))
+        sibling = [p for p in params if not any(matches(gn_, p) for gn_ in names)
+                   and any(matches(gn_, q) and q.rsplit("_", 1)[0] == p.rsplit("_", 1)[0] for gn_ in names for q in params)]
+        if sibling and rng.random() < 0.4:      # one arc's other kind of parameter, named specifically beside the global name
+            names.insert(rng.randint(0, len(names)), rng.choice(sibling))
+        return names
     if k == "partial" and P:
         return rng.sample(P, rng.randint(1, min(2, len(P)))) + (rng.sample(params, 1) if rng.random() < 0.4 else [])
     if k == "side" and S:
@@ -591,6 +596,11 @@ def gen_named(rng, case, params, kind):
             spec += rng.sample(mid, min(1, len(mid)))
         other = [p for p in params if p not in cand]
         rest = rng.sample(other, min(len(other), rng.randint(0, 1)))
+        # another kind of parameter of an arc that the global name addresses (its 'micro' beside the global 'spread')
+        free = {c.rsplit("_", 1)[0] for c in cand} - {c.rsplit("_", 1)[0] for c in spec}   # ... and that no specific name covers
+        sibling = [p for p in other if p.rsplit("_", 1)[0] in free]
+        if sibling and rng.random() < 0.6:
+            rest = [rng.choice(sibling)]
         names = spec + [gname] if k == "specific-global" else [gname] + spec
         pos = rng.randint(0, len(names))
         return names[:pos] + rest + names[pos:]
